@@ -186,7 +186,7 @@ H={'C02-a':"missed by the first version of C02 (all workloads used distinct wind
 rows=[]
 for d in sorted(glob.glob('/verif/seeded/*')):
     name=os.path.basename(d)
-    if name not in N or not os.path.exists(d+'/confirm.log'): continue
+    if name not in N or not os.path.exists(d+'/confirm.log') or len(open(d+'/confirm.log').read().strip().split('\n'))<4: continue
     prop=name.split('-')[0]
     conf=open(d+'/confirm.log').read().strip().split('\n')
     demo=[f for f in os.listdir(d) if f.endswith('_test.go')]
